@@ -151,12 +151,15 @@ Definition item_ok (c : sconn) (it : item) (s : RS.state) : bool :=
 (* D1: a PRIORITY frame on an even stream id (an idle stream of the server's own id space,
        RFC 6.3 allows it) is a connection error in the read loop.
    D3: a WINDOW_UPDATE on a stream the peer itself closed with RST_STREAM is ignored
-       (RFC 5.1: stream error STREAM_CLOSED); the ring does not record who closed. *)
+       (RFC 5.1: stream error STREAM_CLOSED); the ring does not record who closed.
+   D6: a SETTINGS or GOAWAY frame carrying the id of a recently closed stream is answered
+       with GOAWAY(STREAM_CLOSED); RFC 6.5/6.8 name PROTOCOL_ERROR. *)
 Definition known_deviation (c : sconn) (s : RS.state) (i : rl_input) : bool :=
   match i with
   | RFrame f =>
     match sf_kind f with
     | KPriority => N.even (sf_sid f) && negb (sf_sid f =? 0)
+    | KSettings | KGoAway => negb (sf_sid f =? 0) && in_ring c (sf_sid f)
     | KWinUpd =>
       match ring_find c (sf_sid f), RS.st_of s (sf_sid f) with
       | Some false, RS.Closed RS.PeerRst => true
